@@ -58,6 +58,11 @@ class SessionRules(Harness):
                 if f0 == f1:
                     continue
                 out.append({"fam": "flags", "sessions": [[f0[0], f0[1], 1], [f1[0], f1[1], 2 if tier == "thorough" else 1]]})
+        # F2b: a crossed book left by a no-execution session; in the execution session the accepted items are
+        # cancels of (possibly unrelated) resting orders: a round must follow each of them
+        out.append({"fam": "cancel-round", "n0": 2})
+        if tier == "thorough":
+            out.append({"fam": "cancel-round", "n0": 3})
         # F3: built-in events, first session without execution
         for ev in EVENTS:
             for where in (0, 1):
@@ -82,6 +87,12 @@ class SessionRules(Harness):
             sessions = [rn.session(i, n, p, e, maxNormalOrders=2) for i, (p, e, n) in enumerate(case["sessions"])]
             st = rn.base_settings(n_agents=2, sessions=sessions)
             menu = {"acts": ["none", "limit"], "per_agent": {"0": {"side": "B"}, "1": {"side": "S"}}}
+        elif fam == "cancel-round":
+            sessions = [rn.session(0, case["n0"], True, False, maxNormalOrders=2),
+                        rn.session(1, 1, True, True, maxNormalOrders=2)]
+            st = rn.base_settings(n_agents=2, sessions=sessions)
+            menu = {"acts": ["limit"], "per_agent": {"0": {"side": "B"}, "1": {"side": "S"}}, "vol_fixed": 1,
+                    "acts_by_time": {"0": ["limit"], str(case["n0"]): ["none", "cancel"]}}
         else:
             ev = dict(EVENTS[case["event"]])
             if "haltingTimeLength" in ev:
